@@ -402,7 +402,7 @@ Definition step_gen (pinned : bool) (st0 : state) (e : event) : option state :=
     | Some cm =>
       match c_phase cm with
       | PNew => if own_time_ok st cm now
-                then Some (put st c (mkC (c_kind cm) (c_issue cm) dt drt PStart now None now [] None None None))
+                then Some (put st c (mkC (c_kind cm) (c_issue cm) dt drt PStart now None now [] None (c_new cm) (c_repl cm)))
                 else None
       | _ => None
       end
